@@ -1,17 +1,19 @@
 import CollectionsC.Properties.C10
 import CollectionsC.Proofs.PQueueCross
+import CollectionsC.Properties.C14PQueue
 /-! # C08 (priority queue part): a refused allocation is atomic -/
 namespace CC.Properties.C08PQueue
 open CC CC.Spec
 open CC.Spec.PQ (Op Out)
 
-/-- `cc_pqueue_push` reports `CC_ERR_ALLOC` **iff** a refusal fired (the allocator's refusal
-counter moved), which happens iff the queue is full, can still grow and the allocator says no -/
+/-- `cc_pqueue_push` reports `CC_ERR_ALLOC` **iff** a refusal fired (the refusal counter moved) — on
+either triple: a queue on the C library is never refused, so both sides are false there
+(`push_no_refusal`).  `hl` is ledger consistency (constructor establishes, steps preserve). -/
 theorem push_refused_iff {cmp : Nat → Nat → Int} (tp : TotalPreorder cmp) (grow : Nat → Nat)
-    (q : PQueue) (x : Nat) (m : Mem) (h : PQueue.Inv' cmp q) (ht : q.triple = .conf) (hl : 2 ≤ m.live) :
+    (q : PQueue) (x : Nat) (m : Mem) (h : PQueue.Inv' cmp q) (hl : 2 ≤ m.liveT q.triple) :
     ((PQueue.push cmp grow q x m).1 = .errAlloc ↔ (PQueue.push cmp grow q x m).2.2.nrefused = m.nrefused + 1) ∧
     ((PQueue.push cmp grow q x m).1 ≠ .errAlloc → (PQueue.push cmp grow q x m).2.2.nrefused = m.nrefused) := by
-  rcases PQueue.push_counts tp grow q x m h ht (by omega) with ⟨k0, k1, _⟩ | ⟨kok, _, _, _, k2, _⟩ | ⟨kerr, _, _, _, k2, _⟩
+  rcases PQueue.push_counts tp grow q x m h (by omega) with ⟨k0, k1, _⟩ | ⟨kok, _, _, _, k2, _⟩ | ⟨kerr, _, _, _, k2, _⟩
   · rw [k1]
     have hne : (PQueue.push cmp grow q x m).1 ≠ .errAlloc := by
       rcases k0 with ⟨_, k0⟩ | k0 <;> rw [k0] <;> simp
@@ -42,6 +44,21 @@ theorem refused_push_skipped {cmp : Nat → Nat → Int} (tp : TotalPreorder cmp
   have hq := (push_atomic tp grow q x m h hl hst).1
   simp only [PQueue.run, PQueue.step, hst, hq]
   exact ⟨trivial, trivial⟩
+
+/-- **continue after a refusal**, for every schedule and a second ledger: if the first push of a
+history is refused, the rest of the history behaves — statuses, out-values, final queue — exactly
+like the history *without* that push run on any ledger `m'` that has the schedule the refusal left
+behind (`m'.sched = remaining schedule`); in particular, once the allocator succeeds again the
+queue continues as if the refused call had never been made -/
+theorem continue_after_refusal {cmp : Nat → Nat → Int} (tp : TotalPreorder cmp) (grow : Nat → Nat)
+    (q : PQueue) (x : Nat) (ops : List Op) (m m' : Mem) (h : PQueue.Inv' cmp q) (hl : 2 ≤ m.liveT q.triple)
+    (hst : (PQueue.push cmp grow q x m).1 = .errAlloc) (hs : m'.sched = (PQueue.push cmp grow q x m).2.2.sched) :
+    (PQueue.run cmp grow q (.push x :: ops) m).1 = ⟨.errAlloc, none⟩ :: (PQueue.run cmp grow q ops m').1 ∧
+    (PQueue.run cmp grow q (.push x :: ops) m).2.1 = (PQueue.run cmp grow q ops m').2.1 := by
+  have h1 := refused_push_skipped tp grow q x ops m h hl hst
+  have h2 := C14PQueue.history_allocator_independent cmp grow ops q (PQueue.push cmp grow q x m).2.2 m' hs.symm
+  rw [h1.1, h1.2, h2.1, h2.2]
+  exact ⟨rfl, rfl⟩
 
 /-- with an allocator that does not refuse — an empty schedule, or the C library (`cc_pqueue_new`),
 which the harness never refuses — push never reports `CC_ERR_ALLOC` -/
